@@ -394,12 +394,18 @@ mod bits {
 			Self::gen_len(g, n).unwrap()
 		}
 		fn gen_len(g: &mut G, n: usize) -> Option<Self> {
+			// construction history matters: push more than needed and cut back (stale bits stay in
+			// the padding of the last storage element), or drop a prefix (non-zero head offset)
+			let extra = if g.chance(1, 2) { g.below(2 * size_of::<T>() * 8 + 1) } else { 0 };
+			let lead = if g.chance(1, 3) { g.below(size_of::<T>() * 8) } else { 0 };
 			let mut bv: BitVec<T, O> = BitVec::new();
 			let mut word = 0u64;
-			for i in 0..n {
-				if i % 64 == 0 { word = if g.chance(1, 4) { u64::MAX } else { g.u64() }; }
+			for i in 0..(lead + n + extra) {
+				if i % 64 == 0 { word = if g.chance(1, 3) { u64::MAX } else { g.u64() }; }
 				bv.push((word >> (i % 64)) & 1 == 1);
 			}
+			bv.truncate(lead + n);
+			if lead > 0 { bv.drain(..lead); }
 			Some(bv)
 		}
 		fn abs(&self) -> Value { Value::Array(self.iter().map(|b| json!(if *b { 1 } else { 0 })).collect()) }
